@@ -568,6 +568,10 @@ def _standard_check(prop, a, r, harness_args, coqchk, consts, harness_timeout, p
                     c.get("class", ""), {"case": c}, found_input=True)
     sf = set(specfails)
     only_diff = [(f, i) for f, i in diffs if (f, i) not in sf]
+    # spec failures of a recorded known finding must not hide a broken correspondence / proof elsewhere
+    known_fps = {k["fingerprint"] for k in load_known()[0] if k["property"] == prop}
+    specfails_all = specfails
+    specfails = [x for x in specfails if case_of(*x).get("class", "spec") not in known_fps]
     direct = os.path.exists(os.path.join(outdir, "violations.jsonl")) and \
         os.path.getsize(os.path.join(outdir, "violations.jsonl")) > 0
     if (only_diff or not gate["ok"]) and not specfails and not direct and not a.replay \
@@ -629,7 +633,7 @@ def _standard_check(prop, a, r, harness_args, coqchk, consts, harness_timeout, p
     r.coverage["distinct_nontrivial"] = len(ntr)
     r.coverage["traces_validated_against_impl"] = len(cases)
     r.coverage["disagreements_model_vs_impl"] = len(diffs)
-    r.coverage["spec_failures"] = len(specfails)
+    r.coverage["spec_failures"] = len(specfails_all)
     r.coverage["distribution"] = stats.get("distribution", {})
     r.coverage["exhaustive"] = bool(stats.get("exhaustive", False))
     step = max(1, len(cases) // 5)
